@@ -275,3 +275,12 @@ End Facts.
 
 Lemma keys_aget_iff {V : Type} k (m : list (nat * V)) : In k (akeys m) <-> exists v, aget k m = Some v.
 Proof. split; [apply keys_aget|intros [v H]; eapply aget_Some_keys; eauto]. Qed.
+
+Lemma aset_aset {V : Type} k (v1 v2 : V) m : aset k v2 (aset k v1 m) = aset k v2 m.
+Proof.
+  induction m as [|[k' v'] t IH]; cbn.
+  - rewrite Nat.eqb_refl. auto.
+  - destruct (Nat.eqb_spec k k'); cbn.
+    + rewrite Nat.eqb_refl. auto.
+    + destruct (Nat.eqb_spec k k'); [congruence|]. f_equal. auto.
+Qed.
